@@ -37,6 +37,16 @@ func allOfMembers(cfg gen.Config) []member {
 		obj(&fam.Prop{Label: "s", Spec: str("minLength")}),
 		obj(&fam.Prop{Label: "s2", SameAs: "s", Spec: str("maxLength"), Required: true}),
 	}})
+	// the same property typed integer by the first branch and number by the second: the conjunction is an integer
+	wrap("overlap, integer then number", &fam.Spec{Kind: "object", AllOf: []*fam.Spec{
+		obj(&fam.Prop{Label: "n", Spec: &fam.Spec{Kind: "integer", Kw: []string{"minimum"}}, Required: true}),
+		obj(&fam.Prop{Label: "n2", SameAs: "n", Spec: &fam.Spec{Kind: "number", Kw: []string{"maximum"}}}),
+	}})
+	// an object-valued property declared by the first branch and refined by the second with further required members
+	wrap("overlap, nested object refined by a later branch", &fam.Spec{Kind: "object", AllOf: []*fam.Spec{
+		obj(&fam.Prop{Label: "target", Spec: obj(&fam.Prop{Label: "host", Spec: str(), Required: true}), Required: true}),
+		obj(&fam.Prop{Label: "target2", SameAs: "target", Spec: obj(&fam.Prop{Label: "region", Spec: str(), Required: true}, &fam.Prop{Label: "note", Spec: str("maxLength")})}),
+	}})
 	// the same keyword stated by two branches: both limits must hold
 	wrap("overlap, same keyword twice", &fam.Spec{Kind: "object", AllOf: []*fam.Spec{
 		obj(&fam.Prop{Label: "s", Spec: str("maxLength")}),
@@ -163,6 +173,10 @@ func C11(c *core.Ctx) {
 	c.Floor("families", c.Counts["members"], 24, "family members")
 	a := engb.New(c.Prog)
 	emit(c, a.RefCacheScope())
+	// the in-scope marker set around an anyOf branch is released on every path: a leaked marker makes every later anyOf over that
+	// definition look cyclic (interface{}, no branch tried)
+	emit(c, a.Cycle())
+	emit(c, a.MergoModelAssumptions())
 	ruleBErr(c, a, func(s *engb.ErrSite) bool {
 		fn := c.Prog.FuncName(s.Fn)
 		return fn == "(*pkg/generator.schemaGenerator).resolveRefs" || fn == "(*pkg/generator.schemaGenerator).generateAnyOfType" || fn == "(*pkg/generator.schemaGenerator).generateAllOfType"
